@@ -51,6 +51,12 @@ impl SwiftField for Field79 {
             }
 
             // Validate SWIFT character set
+            if line.is_empty() {
+                return Err(ParseError::InvalidFormat {
+                    message: "Field 79 line cannot be empty".to_string(),
+                });
+            }
+
             parse_swift_chars(line, "Field 79 line")?;
 
             lines.push(line.to_string());
